@@ -34,7 +34,7 @@ RULE = ("pairs of diagrams from one PRNG: sizes 0-7 (quick) / 0-7, 0-16, 0-40 (t
 ASSUMPTIONS = [
     "diagrams are (n,2): births finite, deaths finite or non-finite (dropped with a warning); extra columns and non-finite births are outside the model",
     "sklearn pairwise_distances returns the Euclidean distance up to rounding; it uses the expanded formula |x|^2-2xy+|y|^2, "
-    "which is why values are compared with tolerance 1e-6*scale (scale = largest |coordinate| times the number of summed rows) and not 1e-9",
+    "which is why values are compared with tolerance 1e-9*scale (scale = largest |coordinate| times the number of summed rows); before /repo fix of the expanded-formula cancellation this had to be 1e-6",
     "np.sum / BLAS dot agree with the model's left fold and b*(-sp)+d*cp up to rounding (inside the same tolerance)",
     "scipy.optimize.linear_sum_assignment returns a minimum-cost perfect assignment when a finite one exists: a PARAMETER of the "
     "theorem, not proved; every run certifies the optimum it is compared against with exact dual potentials checked in Lean",
@@ -42,7 +42,7 @@ ASSUMPTIONS = [
 ]
 TRUSTED = ["scipy.optimize.linear_sum_assignment (contract: minimum-cost perfect assignment; certified per run, not proved)",
            "sklearn.metrics.pairwise_distances (contract: Euclidean distance), np.cos/np.sin/np.sqrt at pi/4 and 2"]
-TOL = 1e-6
+TOL = 1e-9
 EXH_MAX = 8          # M+N bound of the exhaustive model run (after the placeholder)
 SPEC_MAX = 12        # |S|+|T| bound of the exhaustive specification
 
@@ -560,7 +560,7 @@ def run(ctx):
                               found_input=False)
             if len(ctx.violations) > 5:
                 return
-    ctx.extra["tolerance"] = "1e-6 * (largest |coordinate|) * (rows of the augmented matrix)"
+    ctx.extra["tolerance"] = "1e-9 * (largest |coordinate|) * (rows of the augmented matrix)"
 
 
 def _parse_dgm(d):
@@ -596,7 +596,7 @@ MANIFEST = {
             "their algebraic contracts (sqrt x >= 0, sqrt x * sqrt x = x for x >= 0; c >= 0, c*c = 1/2), instantiated at the reals.",
     "note": "Trusted: Lean kernel + Mathlib (axioms propext/Classical.choice/Quot.sound); the correspondence harness; scipy's "
             "linear_sum_assignment contract (certified per run, not proved); sklearn pairwise_distances = Euclidean distance up to "
-            "rounding (expanded formula, hence tolerance 1e-6*scale); IEEE rounding is outside the theorems. [T] lsa_contract: every "
+            "rounding (tolerance 1e-9*scale); IEEE rounding is outside the theorems. [T] lsa_contract: every "
             "matrix the real routine hands to scipy is observed in-process and the assignment scipy returned is compared with that "
             "matrix's optimum, certified by the same Lean-checked dual certificate.",
     "technique": "Lean 4 theorems over a hand-written model with the solver as a contract parameter + differential correspondence "
